@@ -45,8 +45,19 @@ func tree(w sysx.Sys, links bool) {
 
 // prefixes of the Glob patterns: below the scratch directory, at the root, and
 // relative to the working directory /w
-var globPrefix = []string{"/w/", "/", ""}
-var globPrefixName = []string{"below-dir", "root-level", "relative"}
+var globPrefix = []string{"/w/", "/", "", "/w/"}
+var globPrefixName = []string{"below-dir", "root-level", "relative", "below-dir-as-user-with-unreadable-dir"}
+
+// unreadable makes /w/ab a directory that can be stat-ed and searched but not
+// listed, and switches to a non-administrator (variant 3 of HGlob): Glob and
+// the reference algorithm both ignore the directory and keep the other matches.
+func unreadable(w interface {
+	sysx.Sys
+	sysx.Creds
+}) {
+	must(w.Chmod("/w/ab", 0o311))
+	w.SetCreds(1000, 1000)
+}
 
 func must(c int) {
 	if c != 0 {
@@ -88,6 +99,9 @@ func HGlob(kind, n, pfx int) {
 		sym.Assume(s[i] != 0)
 	}
 	pattern := globPrefix[pfx] + s
+	if pfx == 3 {
+		unreadable(sysx.ImplSys{V: base})
+	}
 	if pfx == 2 {
 		sym.Assume(len(s) > 0 && s[0] != '/')
 		hx.Must(v.Chdir("/w"))
@@ -103,6 +117,9 @@ func HGlob(kind, n, pfx int) {
 	if sym.Native() {
 		k := sysx.NewKernel()
 		tree(k, links)
+		if pfx == 3 {
+			unreadable(k)
+		}
 		var km []string
 		var kerr error
 		if pfx == 2 {
@@ -116,6 +133,9 @@ func HGlob(kind, n, pfx int) {
 		}
 		// the port of the algorithm is validated on the kernel's own tree
 		kwant, kbad := sysx.RefGlob(k, pattern)
+		if pfx == 3 {
+			k.Restore()
+		}
 		k.Done()
 		sym.Assert((kerr != nil) == kbad && eqStrings(km, kwant), "ORACLE|"+label+"|filepath.Glob-differs-from-reference")
 	}
